@@ -1,18 +1,25 @@
 # C01 — verified layers never return bytes that do not match the TOC-pinned digests
 PROPS["C01"] = dict(
     props_file="Properties/C01.v",
-    harnesses=[dict(cmd="verify", mod="root", model="Model.Verify", quick=300, thorough=8000, shard=75,
+    harnesses=[dict(cmd="verify", mod="root", model="Model.Verify", race=150, quick=220, thorough=8000, shard=75,
                     require=["op.vtoc", "op.skip", "op.lverify", "op.lverify.repeated", "op.lskip", "op.pf", "op.cache.real",
-                             "op.cache.stepwise", "op.pfstart.add", "op.pfstart.write", "op.pfstart.commit", "op.pfstart.abort", "op.pfresume", "result.pfresume.aborted", "cache.mem", "cache.dir", "op.read.verified", "op.read.unverified", "op.probe",
-                             "cor.none", "cor.flip", "cor.zero", "cor.replace", "cor.swap", "cor.tocdigest", "cor.tocreser", "cor.tocnodigest", "comp.gzip", "comp.zstd", "minchunk",
+                             "op.cache.stepwise", "op.pfstart.add", "op.pfstart.write", "op.pfstart.commit", "op.pfstart.abort", "op.pfresume", "result.pfresume.aborted", "cache.mem", "cache.dir", "op.pass.batch", "op.pass.sequential", "op.pass.verified", "op.pass.unverified", "result.pass.ok", "result.pass.err", "result.pass.nofetch", "op.read.verified", "op.read.unverified", "op.probe",
+                             "cor.none", "cor.flip", "cor.zero", "cor.replace", "cor.swap", "cor.tocdigest", "cor.tocreser", "cor.tocnodigest", "cor.toctrail", "comp.gzip", "comp.zstd", "minchunk",
+                             "fetch.pre", "fetch.err",
+                             "result.VerifyTOC.ok", "result.VerifyTOC.err", "result.layer.Verify.ok", "result.layer.Verify.err",
+                             "result.read.ok", "result.read.err", "result.read.allcached", "result.pf.err", "result.probe.hit"]),
+               dict(cmd="verifydb", mod="cmdmod", model="Model.Verify", quick=120, thorough=3000, shard=75,
+                    require=["op.vtoc", "op.skip", "op.lverify", "op.lverify.repeated", "op.lskip", "op.pf", "op.cache.real",
+                             "op.cache.stepwise", "op.pfstart.add", "op.pfstart.write", "op.pfstart.commit", "op.pfstart.abort", "op.pfresume", "result.pfresume.aborted", "cache.mem", "cache.dir", "op.pass.batch", "op.pass.sequential", "op.pass.verified", "op.pass.unverified", "result.pass.ok", "result.pass.err", "result.pass.nofetch", "op.read.verified", "op.read.unverified", "op.probe",
+                             "cor.none", "cor.flip", "cor.zero", "cor.replace", "cor.swap", "cor.tocdigest", "cor.tocreser", "cor.tocnodigest", "cor.toctrail", "comp.gzip", "comp.zstd", "minchunk",
                              "fetch.pre", "fetch.err",
                              "result.VerifyTOC.ok", "result.VerifyTOC.err", "result.layer.Verify.ok", "result.layer.Verify.err",
                              "result.read.ok", "result.read.err", "result.read.allcached", "result.pf.err", "result.probe.hit"])],
     rule="eStargz blobs built by estargz.Build (gzip / zstd:chunked, chunk size 4..32, min-chunk-size 0/20/40/100, 1-3 files) then altered "
          "(bit flip / zeroed tail of a member, member replaced by a validly compressed different payload of the same size, two members swapped, "
          "TOC re-serialised / chunk digest rewritten to match a replaced chunk / digests removed / other field changed), opened through "
-         "metadata/memory + fs/reader (+ fs/layer layer object) with a memory or directory chunk cache; random histories of VerifyTOC(D|actual|other) / SkipVerify / "
-         "layer.Verify / layer.SkipVerify / readAndCache of one chunk / Cache() / OpenFile.ReadAt / cache probe / a prefetch goroutine stopped at any interaction with its "
+         "the memory metadata store (harness verify) and the db/bbolt metadata store (harness verifydb) + fs/reader (+ fs/layer layer object) with a memory or directory chunk cache; random histories of VerifyTOC(D|actual|other) / SkipVerify / "
+         "layer.Verify / layer.SkipVerify / readAndCache of one chunk / Cache() / OpenFile.ReadAt / OpenFile.GetPassthroughFd (directory cache in direct mode; merge buffer below, equal to, not a multiple of and above the chunk size, 1-3 workers: both merge code paths) / cache probe / a prefetch goroutine stopped at any interaction with its "
          "cache writer (before Add, at the first Write, before Commit, before Abort) while VerifyTOC / SkipVerify / reads run, resumed later (fixed corpus: every stop "
          "point x genuine/altered chunk x VerifyTOC(D)/VerifyTOC(D'), plus random ones), ending with a re-read of every file "
          "through the warm cache; non-trivial = a read in verified mode or a failed operation; distinct = distinct (TOC, history, fetched bytes, outputs)",
@@ -27,8 +34,8 @@ PROPS["C01"] = dict(
                "SkipVerify/prefetch check/on-demand check/Commit/Evict, adversary-chosen bytes, any hash function): a successful (layer) verification pins the TOC digest; "
                "unless an unverified on-demand read accepted altered bytes, every cached or pending chunk of a verifiable reader hashes to a digest recorded in the TOC, "
                "so every byte a successful read returns comes from such a chunk; prefetch-time failures are sticky and frozen by the decision (RW-lock handshake); "
-               "failed reads leave the cache unchanged. The model is run against the real code on generated corrupted blobs every run.",
-    level_note="Model (coq/Model/Verify.v) is hand-written; decoders are oracles; passthrough merge (GetPassthroughFd), the db metadata store and external-TOC blobs are not driven; "
+               "failed reads leave the cache unchanged; the whole-file entry handed out by GetPassthroughFd (both merge paths) consists only of such chunks and a failed merge leaves none. The model is run against the real code on generated corrupted blobs every run.",
+    level_note="Model (coq/Model/Verify.v) is hand-written; decoders are oracles; external-TOC blobs are not driven; "
                "one known finding remains (bytes cached by an unverified read survive a later successful Verify of the same cached layer).",
     technique="Coq proof: invariant preserved by every atomic step, lifted to all interleavings; API calls shown to be compositions of atomic steps; correspondence by vm_compute on observed histories",
     trusted=["fs/reader, fs/layer Verify/SkipVerify are modelled by hand in coq/Model/Verify.v; tie = per-op outcome (ok/err), bytes returned by ReadAt, cache entries probed",
